@@ -25,7 +25,7 @@ import sys
 import threading
 from typing import Any, Callable, Dict, List, Optional
 
-from .fold import DV, EV, ClsRef, Folder, FoldRaise, Unsupported
+from .fold import DV, EV, Bound, ClsRef, Folder, FoldRaise, Unsupported
 from .index import AnalysisError, Repo
 
 threading.stack_size(256 * 1024 * 1024)
@@ -441,6 +441,19 @@ class AEnd(Native):
         self.inbox: list = []
         self.peer: Optional['AEnd'] = None
         self.closed = False
+        self.timeout = None           # socket timeout in force on this end (None = blocking)
+
+    def settimeout(self, t):
+        self.timeout = t
+
+    def gettimeout(self):
+        return self.timeout
+
+    def setblocking(self, flag):
+        self.timeout = None if flag else 0.0
+
+    def ready(self) -> bool:
+        return bool(self.inbox) or self.peer is None or self.peer.closed or self.closed
 
     def close(self):
         if not self.closed:
@@ -463,8 +476,14 @@ class AEnd(Native):
         w = self.world
         if self.closed:
             raise FoldRaise('OSError', 'receive on a closed connection')
-        w.sched.block(lambda: bool(self.inbox) or self.peer is None or self.peer.closed or self.closed,
-                      f'receive on connection {self.cid} ({self.side} side)')
+        if self.timeout is not None and not self.ready():
+            # the protocol gives a peer unlimited time: a wait with a timeout in force can always time out before the peer's message
+            w.sched.yield_()
+            if not self.ready():
+                w.anomaly('timed-wait', f'receive on connection {self.cid} ({self.side} side) with a {self.timeout} s timeout in force times out '
+                                        f'while the peer is still thinking')
+                raise FoldRaise('TimeoutError', 'timed out')
+        w.sched.block(self.ready, f'receive on connection {self.cid} ({self.side} side)')
         if self.inbox:
             return self.inbox.pop(0)
         raise FoldRaise('ConnectionError', 'peer closed the connection')
@@ -478,6 +497,18 @@ class ASock(Native):
         self.end: Optional[AEnd] = None
         self.closed = False
         self.listening = False
+        self.timeout = None
+
+    def settimeout(self, t):
+        self.timeout = t
+        if self.end is not None:
+            self.end.timeout = t
+
+    def gettimeout(self):
+        return self.timeout
+
+    def setblocking(self, flag):
+        self.settimeout(None if flag else 0.0)
 
     def bind(self, addr):
         self.addr = tuple(addr)
@@ -502,6 +533,7 @@ class ASock(Native):
         cid = f'c{next(w.counter)}'
         a, b = AEnd(w, cid, 'client'), AEnd(w, cid, 'server')
         a.peer, b.peer = b, a
+        a.timeout = self.timeout
         self.end = a
         w.conn_owner[cid] = w.sched.current.name if w.sched.current else '?'
         lst.backlog.append(b)
@@ -528,6 +560,8 @@ class AFile(Native):
         self.writes: list = []
         self.closed = False
         world.files.append(self)
+        if any(c in str(mode) for c in 'wax'):
+            world.fs[str(path)] = self
         world.event('file-open', str(path), mode)
 
     def write(self, x):
@@ -549,11 +583,74 @@ class AFile(Native):
 
 
 class APath(Native):
-    def __init__(self, suffix='.json'):
-        self.suffix = suffix
+    """A path of the abstract file system of the world (pathlib.Path / str interface as far as the session code uses it)."""
+
+    def __init__(self, world_or_suffix='.json', name=None):
+        if isinstance(world_or_suffix, str):
+            self.world, self.name = None, 'out' + world_or_suffix
+        else:
+            self.world, self.name = world_or_suffix, name
+
+    def _p(self, name):
+        return APath(self.world, name)
 
     def __repr__(self):
-        return 'out' + self.suffix
+        return self.name
+
+    __str__ = __fspath__ = __repr__
+
+    def __eq__(self, o):
+        return isinstance(o, (APath, str)) and str(o) == self.name
+
+    def __hash__(self):
+        return hash(self.name)
+
+    @property
+    def suffix(self):
+        return '.' + self.name.rsplit('.', 1)[1] if '.' in self.name else ''
+
+    @property
+    def stem(self):
+        return self.name.rsplit('.', 1)[0]
+
+    @property
+    def parent(self):
+        return self._p('.')
+
+    def with_name(self, n):
+        return self._p(str(n))
+
+    def with_suffix(self, sfx):
+        return self._p(self.stem + str(sfx))
+
+    def with_stem(self, st):
+        return self._p(str(st) + self.suffix)
+
+    def __truediv__(self, o):
+        return self._p(str(o) if self.name == '.' else f'{self.name}/{o}')
+
+    def __add__(self, o):
+        return self.name + str(o)
+
+    def __radd__(self, o):
+        return str(o) + self.name
+
+    def exists(self):
+        return self.name in self.world.fs
+
+    is_file = exists
+
+    def open(self, mode='r', *a, **k):
+        return AFile(self.world, self, mode)
+
+    def replace(self, target):
+        self.world.fs_move(self, target)
+        return target
+
+    rename = replace
+
+    def unlink(self, missing_ok=False):
+        self.world.fs_remove(self, missing_ok)
 
 
 # ---------------------------------------------------------------------------------------------------------------------
@@ -589,17 +686,38 @@ class ABoardSetting(Native):
 
 
 class AContract(Native):
+    """The contract an auction of the script ends in.  Identity (board, passed out or not, declarer, vulnerability) is what the session
+    oracles compare; everything else the session code asks of it - is_passed_out(), str_info(), level, trump, is_vul() ... - is answered by
+    the REAL Contract class, folded on a Contract value with these fields (a fixed bid per board), so an exception or a wrong answer of
+    that code shows in the session."""
+
     def __init__(self, world, board, spec, vul):
         self.world, self.board = world, board
         self.passed_out = spec['passed_out']
         self.declarer = None if self.passed_out else world.seat(spec['declarer'])
         self.vul = vul
+        self._dv = None
 
-    def is_passed_out(self):
-        return self.passed_out
+    def _folder(self):
+        p = self.world.sched.current
+        return p.folder if p is not None and p.folder is not None else self.world.folder0
 
-    def str_info(self):
-        return f'contract of board {self.board}'
+    def _real(self):
+        if self._dv is None:
+            f0 = self.world.folder0
+            bids = [b for b in f0.members('Bid') if b.name not in ('Pass', 'X', 'XX')]
+            fb = None if self.passed_out else bids[(self.board * 7 + 3) % len(bids)]
+            self._dv = f0._construct(self.world.repo.cls('Contract'), [], {'final_bid': fb, 'x': False, 'xx': False, 'vul': self.vul, 'declarer': self.declarer})
+        return self._dv
+
+    def __getattr__(self, name):
+        if name.startswith('_') or name in ('world', 'board', 'passed_out', 'declarer', 'vul'):
+            raise AttributeError(name)
+        f = self._folder()
+        v = f._attr(self._real(), name)
+        if isinstance(v, Bound):
+            return lambda *a, **k: f._call_bound(v, list(a), dict(k))
+        return v
 
     def __eq__(self, o):
         return isinstance(o, AContract) and (self.board, self.passed_out, self.declarer, self.vul) == (o.board, o.passed_out, o.declarer, o.vul)
@@ -644,6 +762,7 @@ class ABidding(Native):
                                 f'got {call!r}')
         if self.spec.get('illegal_at') == self.n:
             return st[2]
+        w.fault(self.spec, 'call', self.n, self.owner)
         self.bid_history.append(call)
         self.n += 1
         if self.n >= self.spec['n_calls']:
@@ -658,26 +777,37 @@ class ABidding(Native):
         return AContract(self.world, self.board, self.spec, self.vul)
 
 
-class ATricks(Native):
-    def __init__(self, board, pair):
-        self.board, self.pair = board, pair
+class ATricks(int):
+    """The number of tricks a side has taken on a board: a real number (0 is falsy, it can be compared and added like the engine's
+    own count) that remembers whose tricks it counts."""
+    _sa_native = True
+
+    def __new__(cls, board, pair, n=0):
+        o = int.__new__(cls, n)
+        o.board, o.pair = board, pair
+        return o
 
     def __eq__(self, o):
-        return isinstance(o, ATricks) and (self.board, self.pair) == (o.board, o.pair)
+        if isinstance(o, ATricks):
+            return (self.board, self.pair, int(self)) == (o.board, o.pair, int(o))
+        return int(self) == o
+
+    def __ne__(self, o):
+        return not self.__eq__(o)
 
     def __hash__(self):
-        return hash((self.board, self.pair.name))
+        return hash(int(self))
 
     def __repr__(self):
-        return f'<tricks of {self.pair.name} board {self.board}>'
+        return f'<{int(self)} tricks of {self.pair.name} board {self.board}>'
 
 
 class ATricksMap(Native):
-    def __init__(self, board):
-        self.board = board
+    def __init__(self, board, play=None):
+        self.board, self.play = board, play
 
     def __getitem__(self, pair):
-        return ATricks(self.board, pair)
+        return ATricks(self.board, pair, self.play.won.get(getattr(pair, 'name', None), 0) if self.play is not None else 0)
 
 
 class AScore(Native):
@@ -717,7 +847,8 @@ class APlay(Native):
         self.trick_num = 1
         self.pos = 0
         self.playing_history: list = []
-        self.taken_tricks = ATricksMap(board)
+        self.taken_tricks = ATricksMap(board, self)
+        self.won: dict = {}          # side name -> tricks taken so far
         self.dummy_hand = None
         self.observer = observer
         self.cards_seen: list = []
@@ -752,6 +883,7 @@ class APlay(Native):
                                 f'{self.active_player.name}, got {card!r}')
         if self.observer is not None and self.active_player == self.dummy and self.observer != self.dummy and self.dummy_hand is None:
             raise FoldRaise('Exception', 'dummy hand is not disclosed')
+        w.fault(self.spec, 'card', (self.trick_num, self.pos), self.owner)
         self.cards_seen.append(card)
         self.pos += 1
         if self.pos == 4:
@@ -762,6 +894,8 @@ class APlay(Native):
                 nl = w.next_seat(nl)
             self.leader = nl
             self.active_player = nl
+            side = w.folder0._attr(nl, 'pair').name
+            self.won[side] = self.won.get(side, 0) + 1
             self.trick_num += 1
             self.pos = 0
         else:
@@ -833,6 +967,7 @@ class World:
         self.put_log: list = []
         self.engines: list = []
         self.files: List[AFile] = []
+        self.fs: Dict[str, AFile] = {}        # abstract file system: path -> file written there
         self.log_records: list = []
         self.queue_names: Dict[int, str] = {}
         self.policy_hands: list = []
@@ -895,6 +1030,13 @@ class World:
             'Thread.__init__': lambda *a, **k: None,
             'socket.socket': lambda *a, **k: ASock(w),
             'time.sleep': lambda *a, **k: w.sched.sleep(),
+            'select.select': lambda r, wr=(), x=(), timeout=None: w._select(r, wr, x, timeout),
+            'json.dumps': lambda d, *a, **k: w._json_dumps(d, *a, **k),
+            'os.replace': lambda a, b, **k: w.fs_move(a, b), 'os.rename': lambda a, b, **k: w.fs_move(a, b), 'shutil.move': lambda a, b, **k: w.fs_move(a, b),
+            'os.remove': lambda a, **k: w.fs_remove(a), 'os.unlink': lambda a, **k: w.fs_remove(a),
+            'os.path.exists': lambda a: str(a) in w.fs, 'os.path.isfile': lambda a: str(a) in w.fs,
+            'Path': lambda a='.': a if isinstance(a, APath) else APath(w, str(a)), 'pathlib.Path': lambda a='.': a if isinstance(a, APath) else APath(w, str(a)),
+            'os.fspath': lambda a: str(a), 'os.fsync': lambda *a, **k: None,
             'open': lambda *a, **k: AFile(w, *a, **k),
             'copy.deepcopy': lambda x: (AHands(x.board, copy_of=x) if isinstance(x, AHands) else w._bad_copy(x)),
             'calc_score': lambda c, t: AScore(c, t),
@@ -930,6 +1072,54 @@ class World:
         f.external_attrs['name'] = lambda obj: 'Thread-?'
         return f
 
+    def _select(self, r, wr, x, timeout):
+        """select.select on connections: with a timeout, "nothing ready yet" is a possible answer whenever the peer has not sent (a peer
+        may think as long as it likes); without one the call blocks until something is readable."""
+        ends = [(s_, end_of(s_)) for s_ in r]
+        if timeout is None:
+            self.sched.block(lambda: any(e.ready() for _, e in ends), 'select without timeout')
+        else:
+            # adversarial for the first two polls of a wait (the peer is slower than the timeout), then time passes for everybody
+            n = min((getattr(e, 'polls', 0) for _, e in ends), default=0)
+            if n < 2:
+                self.sched.yield_()
+            else:
+                self.sched.sleep()
+            for _, e in ends:
+                e.polls = 0 if e.ready() else getattr(e, 'polls', 0) + 1
+        return ([s_ for s_, e in ends if e.ready()], list(wr), [])
+
+    def fault(self, spec: dict, point: str, at, owner: str):
+        """Injected offending action / interrupt of the script: spec['fault'] = (kind, point, at); only the table manager's side is hit.
+        kinds: 'refuse' - the engine refuses the action (card not held / out of turn), 'malformed' - the text does not parse,
+        'interrupt' - the operator's KeyboardInterrupt arrives at this point."""
+        ft = spec.get('fault')
+        if not ft or owner != 'main' or self.role() != 'main':
+            return
+        kind, pt, when = ft
+        if pt != point or when != at:
+            return
+        if kind == 'interrupt':
+            raise FoldRaise('KeyboardInterrupt', 'operator interrupt')
+        if kind == 'malformed':
+            raise FoldRaise('Exception', 'Parse exception: malformed message')
+        raise FoldRaise('ValueError', 'the engine refuses the action')
+
+    def fs_move(self, a, b):
+        if str(a) not in self.fs:
+            raise FoldRaise('FileNotFoundError', str(a))
+        self.fs[str(b)] = self.fs.pop(str(a))
+        self.event('file-move', str(a), str(b))
+        return b
+
+    def fs_remove(self, a, missing_ok=False):
+        if str(a) not in self.fs:
+            if missing_ok:
+                return
+            raise FoldRaise('FileNotFoundError', str(a))
+        del self.fs[str(a)]
+        self.event('file-remove', str(a), None)
+
     def _bad_copy(self, x):
         self.anomaly('unsupported', f'deepcopy of {x!r}')
         return x
@@ -963,6 +1153,8 @@ class World:
         if content.parts[0].strip().lower() != str(player_name).lower():
             raise FoldRaise('Exception', f'Parse exception: call message {content!r} does not name {player_name}')
         ct = content.parts[1]
+        if self.role() == 'main':
+            self.fault(self.val['boards'][ct.call.board - 1], 'parse_call', ct.call.idx, 'main')
         if ct.alert and ct.call.is_pass:
             raise FoldRaise('Exception', f'Illegal bid received: {content!r} still carries its alert suffix')
         return ct.call
@@ -974,7 +1166,10 @@ class World:
         name = self.folder0._attr(player, 'formal_name') if isinstance(player, EV) else str(player)
         if content.parts[0].lower() != f'{name} plays '.lower():
             raise FoldRaise('Exception', f'Parse exception: card message {content!r} does not name {name}')
-        return content.parts[1].card
+        cd = content.parts[1].card
+        if self.role() == 'main' and isinstance(cd, Tok) and cd.kind == 'card':
+            self.fault(self.val['boards'][cd.board - 1], 'parse_card', (cd.trick, cd.pos), 'main')
+        return cd
 
     def _parse_cards(self, content=None, player_name=None):
         if not (isinstance(content, AStr) and len(content.parts) == 2 and isinstance(content.parts[0], str)
@@ -997,9 +1192,22 @@ class World:
         rec['_by'] = self.role()
         rec['_at'] = len(self.events)
         self.log_records.append(rec)
+        tok = Tok('record', n=len(self.log_records))
+        f = self.sched.current.folder if self.sched.current is not None and self.sched.current.folder is not None else self.folder0
+        c, fn = f._find(sv.cls, '_write_content')
+        if fn is not None:
+            # the real streaming step (separator, line) with the serialised record as an opaque token (json.dumps is stubbed)
+            f._invoke(c.module, c, fn, sv, [{'__record__': tok}], {})
+            return
         fw = sv.fields.get('_writer')
         if isinstance(fw, AFile):
-            fw.write(Tok('record', n=len(self.log_records)))
+            fw.write(tok)
+
+    def _json_dumps(self, d, *a, **k):
+        if isinstance(d, dict) and '__record__' in d:
+            return d['__record__']
+        self.anomaly('unsupported', f'json.dumps of {type(d).__name__} in the session code')
+        return Tok('json')
 
     # -- engines ------------------------------------------------------------------------------------------------------------
     def _board_for(self, kind: str) -> int:
@@ -1069,7 +1277,7 @@ class World:
         self.board_settings = boards
 
         def body(f: Folder):
-            srv = f._construct(self.repo.cls('Server', 'skeleton'), [], dict(ip_address=ADDR[0], port=ADDR[1], output_file_path=APath('.json'),
+            srv = f._construct(self.repo.cls('Server', 'skeleton'), [], dict(ip_address=ADDR[0], port=ADDR[1], output_file_path=APath(self, 'out.json'),
                                                                              board_settings=list(boards)))
             self.server_obj = srv
             for attr, lab in (('sent_message_queues', 'to-seat'), ('received_message_queues', 'from-seat')):
